@@ -227,6 +227,8 @@ impl HartInfoNode {
     }
 
     pub fn with_cmo(mut self, cmo: &CmoHandle) -> Self {
+        // The node length is a 16-bit field.
+        assert!(self.len() + core::mem::size_of::<u32>() <= u16::MAX as usize);
         self.handles.push(cmo.0);
         self
     }
